@@ -59,6 +59,14 @@ def stale_class_generics():
     return _pkg("wfi", [Module("wfi/mod_a.py", "wfi.mod_a", classes=[first, second], typevars=["T001"])]), {}
 
 
+def rename_on_model():
+    f = Func("helper001", [], ret=Ann("int"))
+    m = Module("wfj/_impl.py", "wfj._impl", funcs=[f, Func("other002", [], ret=Ann("int"))])
+    init = Init("wfj/__init__.py", "wfj", lines=["from ._impl import helper001 as public_helper003"],
+                reexports=[("alias", "wfj._impl", "helper001", "public_helper003")])
+    return Package("wfj", [m], [init], "plaintext"), {}
+
+
 def result_warn_always():
     f = Func("same001", [Param("a", "pos", Ann("int"), doc="About a.", doc_type="int")], ret=Ann("int"), doc="Doc of same001.",
              result_docs=[("", "int", "Result of same001.")])
@@ -67,4 +75,4 @@ def result_warn_always():
 
 BUILDERS = {f.__name__: f for f in [enum_without_publicity_test, property_tuple_as_union, callable_attribute_untyped,
                                     none_result_suppresses_list, typevar_typed_attribute_dropped, private_class_as_type,
-                                    nc_snake_case_class_reference, result_warn_always, stale_class_generics]}
+                                    nc_snake_case_class_reference, result_warn_always, stale_class_generics, rename_on_model]}
